@@ -4624,7 +4624,7 @@ class C20(EvalProp):
             'struct{}, typed maps/slices, pointers, typed nils, funcs, channels, arrays, NaN, time.Time, error, Accessor), all '
             'parsable generated paths incl. existence tests, literal/ordering/regex/deep-equal comparisons and functions; '
             'results, errors (found type) and call logs compared with the model; any panic / undocumented error is a '
-            'violation. Non-trivial: the document contains a foreign value and the path parses')
+            'violation; location paths (texts confirmed as Coq chain_path) into a planted foreign value, then one more step: type unmatched naming that step with the Go type found. Non-trivial: the document contains a foreign value and the path parses')
 
     def quick_n(self):
         return 4000
@@ -4665,10 +4665,48 @@ class C20(EvalProp):
                 doc = ('x', kind)
                 cs.append(Case('root%d_%d' % (j, i), path, [doc, ('o', [(b'a', doc)]), ('a', [doc])], acc=(i + j) % 5 == 0,
                                meta={'family': 'foreign-root', 'nsteps': 1}))
+        # C20_foreign_value_at_depth_from_text: name and index steps down to a node that holds a foreign value, then one more step (and now
+        # and then further ones): type unmatched naming that step, expected object / array, found the Go type (texts confirmed as Coq chain_path)
+        def replace_at(d, spec, newv):
+            if not spec:
+                return newv
+            st = spec[0]
+            if st[0] == 1:
+                k_ = int(''.join(chr(c_) for c_ in st[1]))
+                return ('a', [replace_at(x, spec[1:], newv) if j == k_ else x for j, x in enumerate(d[1])])
+            key = ''.join(chr(c_) for c_ in st[1]).encode('utf-8')
+            last = max(j for j, (kk, _) in enumerate(d[1]) if kk == key)
+            return ('o', [(kk, replace_at(x, spec[1:], newv) if j == last else x) for j, (kk, x) in enumerate(d[1])])
+        for i in range(max(40, n // 60)):
+            lc = gen_loc_chain(g)
+            if lc is None:
+                continue
+            doc, text, spec, loc, val = lc
+            kind = r.choice(sorted(core.KINDS))
+            doc = replace_at(doc, spec, ('x', kind))
+            if r.random() < 0.5:
+                digits = r.choice(['0', '1', '-1', '00'])
+                seg, step, want = '[%s]' % digits, (1, [ord(ch) for ch in digits]), 'array'
+            else:
+                nm = r.choice(['a', 'zz', 'k 1', 'Name'])
+                style = r.choice("'\"." if ' ' not in nm else "'\"")
+                seg = ('.' + nm) if style == '.' else '[%s%s%s]' % (style, nm, style)
+                step, want = (0 if style == '.' else ord(style), [ord(ch) for ch in nm]), 'object'
+            spec2, behind = spec + [step], ''
+            for _ in range(r.choice([0, 0, 1])):
+                behind += '.zz'
+                spec2 = spec2 + [(0, [122, 122])]
+            c = Case('fd%d' % i, (text + seg + behind).encode('utf-8'), [doc], acc=r.random() < 0.2,
+                     meta={'family': 'coq-foreign-at-depth', 'nsteps': len(spec2), 'expect_r0': 'tum:%s:%s:%s' % (hx(seg.encode('utf-8')), want, hx(core.KINDS[kind][1]))})
+            c.keyc = spec2
+            cs.append(c)
         return cs
 
     def project(self, o, c):
-        return {k: v for k, v in o.items() if k[0] in 'RC' or k == 'P' and False} | {'P': pclass(o.get('P', ''))}
+        out = {k: v for k, v in o.items() if k[0] in 'RC' or k == 'P' and False} | {'P': pclass(o.get('P', ''))}
+        if c.keyc and o.get('KP') == '0':
+            out['KP'] = 'the path sent is not Coq chain_path of its steps'
+        return out
 
     def nontrivial(self, c, g):
         return g.get('P') == 'ok' and '<go:' in core.doc_json_text(c.docs[0])
@@ -4678,4 +4716,7 @@ class C20(EvalProp):
             for k in rkeys(g, 'R'):
                 if crashy(g[k]):
                     res.violation('concrete', sig_of(c, 'foreign-value-crash'), 'outcome %s for %r' % (g[k][:200], c.path), c, observed=g[k])
+            if c.meta.get('expect_r0') and g.get('R0') != c.meta['expect_r0']:
+                res.violation('concrete', sig_of(c, 'foreign-at-depth'), 'a step taken on a foreign value must be type-unmatched naming that step: %r' % (c.path,), c,
+                              expected=c.meta['expect_r0'], observed=g.get('R0'))
         return f
